@@ -81,6 +81,11 @@ def run(repo, tier) -> Result:
     from ..driver import check_round_by
 
     check_round_by("C09", res, repo)
+    # look-back positions must exist (a negative position wraps, position 0 makes candles_sum answer None): arithmetic on what
+    # comes back would raise
+    from ..rules_calc import check_positions
+
+    check_positions("C09", res, repo, cas, want=("R-WRAP",))
     # the resolver every formula reads through must not drop a legitimate 0 (volume == 0 -> None -> TypeError in VWAP/OBV)
     from .c20 import truthiness_sites
 
